@@ -20,7 +20,8 @@ def schema_for(seed: int, family: str, idx: int) -> dict:
         return c17_gen.gen_defaults_schema(rng, idx)
     if family == "latename":
         return c17_gen.gen_latename_schema(rng, idx)
-    return c17_gen.gen_identity_schema(rng, idx)
+    d = c17_gen.IDENTITY_TEMPLATES_DISTINCT
+    return c17_gen.gen_identity_schema(rng, idx, d[idx] if idx < len(d) else None)
 
 
 def run_one(schema: dict, rng, exercise: int) -> dict:
@@ -69,6 +70,7 @@ def run_one(schema: dict, rng, exercise: int) -> dict:
     render_cases = []
     ident_cases = []
     import_cases = []
+    spec_cases = []
     contain = {"checked": 0, "missing": []}
     if d and sr.build_error is None:
         import dataclasses
@@ -90,6 +92,9 @@ def run_one(schema: dict, rng, exercise: int) -> dict:
             _ident_case(c)
             for fn, t in c17_render.field_types(c):
                 _ident_case(t)
+                for sc in c17_run.spec_key_cases(t, d.get("CLASSES", [])):
+                    if sc not in spec_cases and len(spec_cases) < 40:
+                        spec_cases.append(sc)
                 if len(import_cases) < 40:
                     ic = c17_imports.case(t)
                     if ic is not None and [ic[0], [list(o) for o in ic[1]]] not in import_cases:
@@ -133,7 +138,7 @@ def run_one(schema: dict, rng, exercise: int) -> dict:
                         if f"MissingField('{fn}',{exp},cls)" not in code and f"MissingField('{fn}',{c17_run.clean(exp)},cls)" not in code:
                             contain["missing"].append(f"{c.__name__}.{fn}: {exp}")
     out = {"idx": schema["idx"], "module": schema["module"], "tags": schema["tags"], "defloc": schema["defloc"],
-           "render_cases": render_cases, "ident_cases": ident_cases, "import_cases": import_cases, "render_contain": contain,
+           "render_cases": render_cases, "ident_cases": ident_cases, "import_cases": import_cases, "render_contain": contain, "spec_cases": spec_cases,
            "build_error": (type(sr.build_error).__name__ + ": " + str(sr.build_error)[:200]) if sr.build_error else None,
            "findings": fs, "programs": progs, "calls": sr.calls, "errors_seen": sr.errors_seen, "info": sr.info,
            "attr_reads": sorted(set(reads)), "attr_sets": sorted(set(sets)),
